@@ -144,6 +144,13 @@ fn replay(id: &str, path: &str) -> i32 {
                     }
                 }
             }
+            "history" => {
+                let fen = case["fen"].as_str().unwrap_or("");
+                let depth = case["line"].as_array().map(|a| a.len()).unwrap_or(1);
+                if let Ok(p) = Pos::from_fen(fen) {
+                    c01_history_dfs(&ctx, &p, depth);
+                }
+            }
             "line" => {
                 let fen = case["fen"].as_str().unwrap_or("");
                 let depth = case["line"].as_array().map(|a| a.len()).unwrap_or(1);
@@ -261,6 +268,11 @@ fn run_board(prop: Prop, tier: Tier) -> i32 {
             let t0 = Instant::now();
             par_map(&roots, |p| c01_perft_root(&ctx, p, 3));
             fams.push(json!({"family": "perft(1..3) on every root vs reference perft", "roots": roots.len(), "secs": t0.elapsed().as_secs_f64()}));
+            let t0 = Instant::now();
+            let d = if tier == Tier::Quick { 3 } else { 4 };
+            let nodes: u64 = par_map_fine(&roots, |p| c01_history_dfs(&ctx, p, d)).iter().sum();
+            extra_states += nodes;
+            fams.push(json!({"family": format!("histories: legal move sets along the subject's own make sequences, depth <= {} from every root", d), "roots": roots.len(), "nodes": nodes, "secs": t0.elapsed().as_secs_f64()}));
         }
         Prop::C03 | Prop::C06 => {
             let t0 = Instant::now();
